@@ -593,7 +593,8 @@ def run_seq(ml, sd):
             info = dict(info, id_reused=_STAT.get("reused", False))
         if viol:
             viol = (viol[0] + ":after-" + ("fresh-object" if step[0] == "fresh" else "in-place-edit"),
-                    f"after {' -> '.join(hist)} on the same object: " + viol[1])
+                    (f"after {' -> '.join(h for h in hist if h != 'fresh')} on the same object: " if step[0] != "fresh" else
+                     "on a fresh object built after a stream of short-lived same-sized objects was dropped (id reuse): ") + viol[1])
         out.append((term, viol, info))
     return out
 
